@@ -181,7 +181,7 @@ def run_case(case):
            "sleeps_observed": 0, "attempts_observed": 0}
     sigs = []
     sample = None
-    for hist in histories(n, https):
+    for hist_no, hist in enumerate(histories(n, https)):
         net = simnet.Net()
         origin = endpoints.Origin(net, "o.test", 443 if https else 80, tls=https, alpn=["http/1.1"])
         if kind == "uds":
@@ -189,8 +189,23 @@ def run_case(case):
         a = flavor != "sync"
         be = (AsyncScript if a else SyncScript)(net, hist)
         cls = httpcore.AsyncConnectionPool if a else httpcore.ConnectionPool
+        # every other history is run with a trace callback on the request (the retry loop is wrapped in trace blocks whose
+        # callbacks see the arguments of each attempt), every third one with socket options / a local address
+        traced = hist_no % 2 == 1
+        opts = {}
+        if hist_no % 3 == 1:
+            opts["socket_options"] = [(6, 1, 1)]
+            if kind != "uds":
+                opts["local_address"] = "127.0.0.9"
         pool = cls(network_backend=be, retries=n, uds="/sock" if kind == "uds" else None,
-                   ssl_context=simnet.RecordingSSLContext())
+                   ssl_context=simnet.RecordingSSLContext(), **opts)
+        trace_events = []
+        if a:
+            async def trace_cb(name, info):
+                trace_events.append(name)
+        else:
+            def trace_cb(name, info):
+                trace_events.append(name)
         api = API(flavor, pool, net)
         exp_calls, exp_final = model(n, hist, https)
         # post-establishment fault: the first read after establishment fails
@@ -214,7 +229,8 @@ def run_case(case):
                     return idx, fault
                 net.begin_op = begin
             try:
-                r = await api.request("GET", f"{scheme}://o.test/", headers={"X-Token": "t"})
+                r = await api.request("GET", f"{scheme}://o.test/", headers={"X-Token": "t"},
+                                      extensions={"trace": trace_cb} if traced else {})
                 res["final"] = "ok:%d" % r.status
             except Exception as exc:  # noqa
                 res["final"] = type(exc).__name__
@@ -223,6 +239,8 @@ def run_case(case):
 
         run_flavor(flavor, net, scen)
         cnt["histories"] += 1
+        cnt["histories_traced"] = cnt.get("histories_traced", 0) + traced
+        cnt["trace_events"] = cnt.get("trace_events", 0) + len(trace_events)
         sigs.append(f"{flavor}|{kind}|{scheme}|{n}|{hist}")
         obs = list(be.calls)
         cnt["attempts_observed"] += obs.count("connect")
